@@ -560,3 +560,8 @@ mod tests {
         );
     }
 }
+
+// verification hook (guard: cfg(kani)); contract harnesses live outside the repository
+#[cfg(kani)]
+#[path = "/verif/kani/statime_base/time_types.rs"]
+mod verif;
